@@ -151,6 +151,52 @@ type Stmt struct {
 	Catches []Catch `json:"cs,omitempty"`
 	HasFin  bool    `json:"hf,omitempty"`
 	Fin     []Stmt  `json:"fin,omitempty"`
+	// Via (statements of kind f only): the kind of callee the body is rendered as — "" a named function,
+	// "m" a method of a fresh object, "s" a static method, "c" a closure stored in a variable, "k" a
+	// constructor (`new H()`; only for bodies that return no value). The model has one notion of call
+	// (Model.Exc.callResult): every kind must hand on controls the way FunctionStatement.Call does.
+	Via string `json:"via,omitempty"`
+}
+
+// the kinds of callee a statement of kind f can be rendered as
+var viaKinds = []string{"", "m", "s", "c", "k"}
+
+func viaName(v string) string {
+	switch v {
+	case "m":
+		return "method"
+	case "s":
+		return "static-method"
+	case "c":
+		return "closure"
+	case "k":
+		return "constructor"
+	}
+	return "function"
+}
+
+// returnsValue: the block can execute a `return n` of its own activation (not one inside a callee)
+func returnsValue(b []Stmt) bool {
+	for _, s := range b {
+		switch s.K {
+		case "r":
+			return true
+		case "l":
+			if returnsValue(s.Body) {
+				return true
+			}
+		case "y":
+			if returnsValue(s.Body) || returnsValue(s.Fin) {
+				return true
+			}
+			for _, c := range s.Catches {
+				if returnsValue(c.Body) {
+					return true
+				}
+			}
+		}
+	}
+	return false
 }
 
 // A case with named functions (Fns: g0, g1, …) is re-entrant: every function has one parameter $n, a call
@@ -162,6 +208,10 @@ type Case struct {
 	Fns   [][]Stmt `json:"fns,omitempty"`
 	Depth int      `json:"d,omitempty"`
 	Tag   string   `json:"tag,omitempty"` // where the case came from (enumeration cell / stream)
+	// Long: a long-running program — the top level is ONE loop `l<N>{ m<M0> … }` of thousands of iterations whose
+	// body starts with a marker; the step limit of the generators does not apply, the model is asked through the
+	// iteration theorem (`iter`), and reports show the first iteration that departs instead of the whole trace.
+	Long bool `json:"long,omitempty"`
 }
 
 // levelMul: $n * levelMul + number
@@ -311,17 +361,43 @@ func (r *renderer) block(sb *strings.Builder, b []Stmt, ind string, catchVar str
 			fmt.Fprintf(sb, "%s}\n", ind)
 		case "f":
 			r.nfn++
-			name := fmt.Sprintf("f%d", r.nfn)
-			var fb strings.Builder
+			k := r.nfn
 			param, arg := "", ""
 			if r.rec {
 				param, arg = "$n", "$n" // the anonymous function works for the activation that calls it
 			}
-			fmt.Fprintf(&fb, "function %s(%s) {\n", name, param)
-			r.block(&fb, s.Body, "  ", "")
-			fb.WriteString("}\n")
-			r.funcs = append(r.funcs, fb.String())
-			fmt.Fprintf(sb, "%s$r = %s(%s);\n%secho \"R\", is_int($r) ? $r : \"-\", \";\";\n", ind, name, arg, ind)
+			via := s.Via
+			if via == "k" && returnsValue(s.Body) {
+				via = "m" // `new` yields the object whatever the constructor returns
+			}
+			var fb strings.Builder
+			switch via {
+			case "m", "s", "k":
+				decl := map[string]string{"m": "function m", "s": "static function s", "k": "function __construct"}[via]
+				fmt.Fprintf(&fb, "class H%d {\n  %s(%s) {\n", k, decl, param)
+				r.block(&fb, s.Body, "    ", "")
+				fb.WriteString("  }\n}\n")
+				r.funcs = append(r.funcs, fb.String())
+				switch via {
+				case "m":
+					fmt.Fprintf(sb, "%s$o%d = new H%d();\n%s$r = $o%d->m(%s);\n", ind, k, k, ind, k, arg)
+				case "s":
+					fmt.Fprintf(sb, "%s$r = H%d::s(%s);\n", ind, k, arg)
+				case "k":
+					fmt.Fprintf(sb, "%s$r = new H%d(%s);\n", ind, k, arg)
+				}
+			case "c":
+				fmt.Fprintf(sb, "%s$c%d = function(%s) {\n", ind, k, param)
+				r.block(sb, s.Body, ind+"  ", "")
+				fmt.Fprintf(sb, "%s};\n%s$r = $c%d(%s);\n", ind, ind, k, arg)
+			default:
+				fmt.Fprintf(&fb, "function f%d(%s) {\n", k, param)
+				r.block(&fb, s.Body, "  ", "")
+				fb.WriteString("}\n")
+				r.funcs = append(r.funcs, fb.String())
+				fmt.Fprintf(sb, "%s$r = f%d(%s);\n", ind, k, arg)
+			}
+			fmt.Fprintf(sb, "%secho \"R\", is_int($r) ? $r : \"-\", \";\";\n", ind)
 		case "cf":
 			fmt.Fprintf(sb, "%sif ($n > 0) {\n%s  $r = g%d($n - 1);\n%s  echo \"R\", is_int($r) ? $r : \"-\", \";\";\n%s}\n", ind, ind, s.N, ind, ind)
 		case "y":
